@@ -242,3 +242,68 @@ Definition async_dump_events (chunks : list bytes) : list qevent :=
 
 Definition async_dump_ok (chunks : list bytes) (dumped : bytes) : bool :=
   bytes_eqb (concat (q_final (async_dump_events chunks))) dumped.
+
+(* ---------------------------------------------------------------------------------------- *)
+(* 4. (round 5) The pool key of a connection: connectMethod.key() of /repo/transport.go       *)
+
+Inductive pscheme := PNone | PHttp | PHttps | PSocks5.
+
+Record cmethod := mkCM {
+  cm_proxy : pscheme;       (* scheme of proxyURL, PNone: no proxy *)
+  cm_proxy_id : nat;        (* identity of the proxy URL *)
+  cm_https : bool;          (* targetScheme == "https" *)
+  cm_target : nat;          (* targetAddr *)
+  cm_onlyh1 : bool }.
+
+(* proxy string, target scheme, target address (0 = "" : not part of the key), onlyH1 *)
+Definition cm_key (c : cmethod) : pscheme * nat * bool * nat * bool :=
+  let pid := match cm_proxy c with PNone => 0 | _ => cm_proxy_id c end in
+  let addr := match cm_proxy c with
+              | PHttp | PHttps => if cm_https c then S (cm_target c) else 0   (* ... && targetScheme == "http" *)
+              | _ => S (cm_target c)
+              end in
+  (cm_proxy c, pid, cm_https c, addr, cm_onlyh1 c).
+
+(* the socket of such a connection is tied to ONE origin: direct, socks5, or a CONNECT tunnel
+   (https target through an http/https proxy); only plain http through an http(s) proxy is not *)
+Definition socket_bound_to_target (c : cmethod) : bool :=
+  match cm_proxy c with
+  | PHttp | PHttps => cm_https c
+  | _ => true
+  end.
+
+(* the seeded variant: no target address for any target behind an http/https proxy *)
+Definition cm_key_shared (c : cmethod) : pscheme * nat * bool * nat * bool :=
+  let pid := match cm_proxy c with PNone => 0 | _ => cm_proxy_id c end in
+  let addr := match cm_proxy c with PHttp | PHttps => 0 | _ => S (cm_target c) end in
+  (cm_proxy c, pid, cm_https c, addr, cm_onlyh1 c).
+
+(* harness case: two requests through one client; whether the second was served over the
+   connection the first had used *)
+Definition proxy_case_ok (a b : cmethod) (same_conn : bool) : bool :=
+  negb same_conn ||
+  (let '(p1, i1, h1, a1, o1) := cm_key a in let '(p2, i2, h2, a2, o2) := cm_key b in
+   Nat.eqb i1 i2 && Bool.eqb h1 h2 && Nat.eqb a1 a2 && Bool.eqb o1 o2 &&
+   match p1, p2 with PNone, PNone | PHttp, PHttp | PHttps, PHttps | PSocks5, PSocks5 => true | _, _ => false end).
+
+(* ---------------------------------------------------------------------------------------- *)
+(* 5. (round 5) A dial shared by several requests: shouldRetryDial of                          *)
+(*    /repo/internal/http2/client_conn_pool.go                                                *)
+
+Inductive dial_err := DErrNone | DErrCanceled | DErrDeadline | DErrOther.
+
+(* same_ctx: call.ctx == req.Context() (the request that started the dial);
+   owner_ctx_done: call.ctx.Err() != nil *)
+Definition should_retry_dial (same_ctx : bool) (e : dial_err) (owner_ctx_done : bool) : bool :=
+  match e with
+  | DErrNone => false
+  | DErrOther => false
+  | DErrCanceled | DErrDeadline => if same_ctx then false else owner_ctx_done
+  end.
+
+(* the seeded variant: a deadline error of the dial's owner is not retried *)
+Definition should_retry_dial_no_deadline (same_ctx : bool) (e : dial_err) (owner_ctx_done : bool) : bool :=
+  match e with
+  | DErrCanceled => if same_ctx then false else owner_ctx_done
+  | _ => false
+  end.
